@@ -40,7 +40,15 @@ pub struct RrCfg {
     pub ovf_req: bool,
     pub ovf_resp: bool,
     pub resp_loans: usize,
+    /// (request, response) element types of TYPED_ELEMS when both layouts are slices of them:
+    /// the TYPED Rust API (`request_response::<[T], [U]>()`) then runs as modes TT/CT/TC
+    pub typed: Option<(usize, usize)>,
+    /// request-cycle programs: many send/receive/drop cycles so that the client's response
+    /// channel ids wrap while stale responses are still queued
+    pub cycles: bool,
 }
+
+pub const TYPED_ELEMS: [(&str, usize); 3] = [("u8", 1), ("u32", 4), ("u64", 8)];
 
 #[derive(Clone, Debug)]
 pub enum RrOp {
@@ -380,6 +388,259 @@ impl<S: Service> ServerSide for RServer<S> {
     }
 }
 
+
+// ------------------------------------------------------------------------------------------
+// typed Rust API: request_response::<[T], [U]>()  (the API a Rust application uses; its receive
+// paths are NOT the `*_custom_payload` functions the C binding goes through)
+// ------------------------------------------------------------------------------------------
+use crate::rside::Pod;
+
+struct TWorld<S: Service, T: Pod, U: Pod> {
+    node: Option<Node<S>>,
+    factory: Option<PortFactory<S, [T], (), [U], ()>>,
+}
+
+fn tworld<S: Service + 'static, T: Pod, U: Pod>(cfg: &RrCfg, svc: &str, node: &str) -> Result<Box<dyn RrWorld>, String> {
+    let name = NodeName::new(node).map_err(rust_err)?;
+    let node = NodeBuilder::new().name(&name).create::<S>().map_err(rust_err)?;
+    let sname = ServiceName::new(svc).map_err(rust_err)?;
+    let factory = node
+        .service_builder(&sname)
+        .request_response::<[T], [U]>()
+        .max_active_requests_per_client(cfg.active)
+        .max_loaned_requests(cfg.loans)
+        .max_response_buffer_size(cfg.resp_buf)
+        .max_borrowed_responses_per_pending_response(cfg.borrow)
+        .enable_safe_overflow_for_requests(cfg.ovf_req)
+        .enable_safe_overflow_for_responses(cfg.ovf_resp)
+        .max_servers(2)
+        .max_clients(2)
+        .max_nodes(8)
+        .open_or_create()
+        .map_err(rust_err)?;
+    Ok(Box::new(TWorld::<S, T, U> { node: Some(node), factory: Some(factory) }))
+}
+
+pub fn typed_world(cfg: &RrCfg, svc: &str, node: &str) -> Result<Box<dyn RrWorld>, String> {
+    macro_rules! pick {
+        ($t:ty, $u:ty) => {
+            if cfg.local {
+                tworld::<Loc, $t, $u>(cfg, svc, node)
+            } else {
+                tworld::<Ipc, $t, $u>(cfg, svc, node)
+            }
+        };
+    }
+    match cfg.typed.expect("typed layouts") {
+        (0, 0) => pick!(u8, u8),
+        (0, 1) => pick!(u8, u32),
+        (0, 2) => pick!(u8, u64),
+        (1, 0) => pick!(u32, u8),
+        (1, 1) => pick!(u32, u32),
+        (1, 2) => pick!(u32, u64),
+        (2, 0) => pick!(u64, u8),
+        (2, 1) => pick!(u64, u32),
+        (2, 2) => pick!(u64, u64),
+        _ => unreachable!(),
+    }
+}
+
+impl<S: Service + 'static, T: Pod, U: Pod> RrWorld for TWorld<S, T, U> {
+    fn make_client(&self, cfg: &RrCfg) -> Result<Box<dyn ClientSide>, String> {
+        let c = self
+            .factory
+            .as_ref()
+            .unwrap()
+            .client_builder()
+            .backpressure_strategy(BackpressureStrategy::DiscardData)
+            .initial_max_slice_len(cfg.req.slice_len)
+            .create()
+            .map_err(rust_err)?;
+        Ok(Box::new(TClient::<S, T, U> { port: Some(c), loans: Vec::new(), pendings: Vec::new(), responses: Vec::new() }))
+    }
+    fn make_server(&self, cfg: &RrCfg) -> Result<Box<dyn ServerSide>, String> {
+        let s = self
+            .factory
+            .as_ref()
+            .unwrap()
+            .server_builder()
+            .backpressure_strategy(BackpressureStrategy::DiscardData)
+            .max_loaned_responses_per_request(cfg.resp_loans)
+            .initial_max_slice_len(cfg.resp.slice_len)
+            .create()
+            .map_err(rust_err)?;
+        Ok(Box::new(TServer::<S, T, U> { port: Some(s), active: Vec::new(), loans: Vec::new() }))
+    }
+    fn counts(&self) -> (usize, usize) {
+        let f = self.factory.as_ref().unwrap();
+        (f.dynamic_config().number_of_clients(), f.dynamic_config().number_of_servers())
+    }
+    fn teardown(mut self: Box<Self>, node_first: bool) {
+        if node_first {
+            self.node.take();
+            self.factory.take();
+        } else {
+            self.factory.take();
+            self.node.take();
+        }
+    }
+}
+
+fn fill<X: Pod>(pl: &mut [MaybeUninit<X>], seed: Option<u64>) -> usize {
+    let nb = pl.len() * core::mem::size_of::<X>();
+    let p = pl.as_mut_ptr() as *mut u8;
+    for i in 0..nb {
+        unsafe { p.add(i).write(seed.map(|s| pattern(s, i)).unwrap_or(0)) };
+    }
+    nb
+}
+
+fn show<X: Pod>(pl: &[X], ne: u64) -> String {
+    let nb = pl.len() * core::mem::size_of::<X>();
+    let bytes = unsafe { core::slice::from_raw_parts(pl.as_ptr() as *const u8, nb) };
+    format!("n={} len={} {}", ne, nb, hex(bytes))
+}
+
+struct TClient<S: Service, T: Pod, U: Pod> {
+    port: Option<Client<S, [T], (), [U], ()>>,
+    loans: Vec<RequestMutUninit<S, [MaybeUninit<T>], (), [U], ()>>,
+    pendings: Vec<PendingResponse<S, [T], (), [U], ()>>,
+    responses: Vec<Response<S, [U], ()>>,
+}
+
+impl<S: Service, T: Pod, U: Pod> ClientSide for TClient<S, T, U> {
+    fn alive(&self) -> bool {
+        self.port.is_some()
+    }
+    fn loan(&mut self, n: usize) -> Result<(), String> {
+        let mut r = self.port.as_ref().unwrap().loan_slice_uninit(n).map_err(rust_err)?;
+        fill(r.payload_mut(), None);
+        self.loans.push(r);
+        Ok(())
+    }
+    fn nloans(&self) -> usize {
+        self.loans.len()
+    }
+    fn write(&mut self, slot: usize, seed: u64) -> usize {
+        fill(self.loans[slot].payload_mut(), Some(seed))
+    }
+    fn send(&mut self, slot: usize) -> Result<(), String> {
+        let r = self.loans.remove(slot);
+        let p = unsafe { r.assume_init() }.send().map_err(rust_err)?;
+        self.pendings.push(p);
+        Ok(())
+    }
+    fn send_copy(&mut self, n: usize, seed: u64) -> Result<(), String> {
+        // no slice send_copy in the typed API: loan + write + send, a failing loan reported the way
+        // Client::send_copy reports it
+        let mut r = self
+            .port
+            .as_ref()
+            .unwrap()
+            .loan_slice_uninit(n)
+            .map_err(|e| rust_err(iceoryx2::port::client::RequestSendError::SendError(iceoryx2::port::SendError::LoanError(e))))?;
+        fill(r.payload_mut(), Some(seed));
+        let p = unsafe { r.assume_init() }.send().map_err(rust_err)?;
+        self.pendings.push(p);
+        Ok(())
+    }
+    fn drop_loan(&mut self, slot: usize) {
+        drop(self.loans.remove(slot));
+    }
+    fn npending(&self) -> usize {
+        self.pendings.len()
+    }
+    fn p_recv(&mut self, p: usize) -> Result<Option<String>, String> {
+        match self.pendings[p].receive().map_err(rust_err)? {
+            None => Ok(None),
+            Some(r) => {
+                let d = show(r.payload(), r.header().number_of_elements());
+                self.responses.push(r);
+                Ok(Some(d))
+            }
+        }
+    }
+    fn p_has(&mut self, p: usize) -> bool {
+        self.pendings[p].has_response()
+    }
+    fn p_connected(&mut self, p: usize) -> bool {
+        self.pendings[p].is_connected()
+    }
+    fn p_drop(&mut self, p: usize) {
+        drop(self.pendings.remove(p));
+    }
+    fn nresponses(&self) -> usize {
+        self.responses.len()
+    }
+    fn release(&mut self, slot: usize) {
+        drop(self.responses.remove(slot));
+    }
+    fn drop_port(&mut self) {
+        self.port.take();
+    }
+}
+
+struct TServer<S: Service, T: Pod, U: Pod> {
+    port: Option<Server<S, [T], (), [U], ()>>,
+    active: Vec<ActiveRequest<S, [T], (), [U], ()>>,
+    loans: Vec<ResponseMutUninit<S, [MaybeUninit<U>], ()>>,
+}
+
+impl<S: Service, T: Pod, U: Pod> ServerSide for TServer<S, T, U> {
+    fn alive(&self) -> bool {
+        self.port.is_some()
+    }
+    fn recv(&mut self) -> Result<Option<String>, String> {
+        match self.port.as_ref().unwrap().receive().map_err(rust_err)? {
+            None => Ok(None),
+            Some(a) => {
+                let d = show(a.payload(), a.header().number_of_elements());
+                self.active.push(a);
+                Ok(Some(d))
+            }
+        }
+    }
+    fn has(&mut self) -> Result<bool, String> {
+        self.port.as_ref().unwrap().has_requests().map_err(rust_err)
+    }
+    fn nactive(&self) -> usize {
+        self.active.len()
+    }
+    fn a_loan(&mut self, a: usize, n: usize) -> Result<(), String> {
+        let mut r = self.active[a].loan_slice_uninit(n).map_err(rust_err)?;
+        fill(r.payload_mut(), None);
+        self.loans.push(r);
+        Ok(())
+    }
+    fn a_send_copy(&mut self, a: usize, n: usize, seed: u64) -> Result<(), String> {
+        let mut r = self.active[a].loan_slice_uninit(n).map_err(|e| rust_err(iceoryx2::port::SendError::LoanError(e)))?;
+        fill(r.payload_mut(), Some(seed));
+        unsafe { r.assume_init() }.send().map_err(rust_err)
+    }
+    fn a_connected(&mut self, a: usize) -> bool {
+        self.active[a].is_connected()
+    }
+    fn a_drop(&mut self, a: usize) {
+        drop(self.active.remove(a));
+    }
+    fn nloans(&self) -> usize {
+        self.loans.len()
+    }
+    fn write(&mut self, slot: usize, seed: u64) -> usize {
+        fill(self.loans[slot].payload_mut(), Some(seed))
+    }
+    fn send(&mut self, slot: usize) -> Result<(), String> {
+        let r = self.loans.remove(slot);
+        unsafe { r.assume_init() }.send().map_err(rust_err)
+    }
+    fn drop_loan(&mut self, slot: usize) {
+        drop(self.loans.remove(slot));
+    }
+    fn drop_port(&mut self) {
+        self.port.take();
+    }
+}
+
 // ------------------------------------------------------------------------------------------
 // generator / executor
 // ------------------------------------------------------------------------------------------
@@ -391,18 +652,54 @@ fn gen_layout(rng: &mut Rng, tag: &str) -> Layout {
     Layout { dynamic, size: s, align: a, name: format!("verif_{}_{}_{}", tag, s, a), slice_len: if dynamic { 1 + rng.below(4) } else { 1 } }
 }
 
+fn typed_layout(rng: &mut Rng) -> (usize, Layout) {
+    let i = rng.below(TYPED_ELEMS.len());
+    let (n, s) = TYPED_ELEMS[i];
+    (i, Layout { dynamic: true, size: s, align: s, name: n.to_string(), slice_len: 1 + rng.below(4) })
+}
+
 pub fn gen_cfg(rng: &mut Rng) -> RrCfg {
-    RrCfg {
-        local: rng.chance(50),
-        req: gen_layout(rng, "rq"),
-        resp: gen_layout(rng, "rs"),
-        active: 1 + rng.below(2),
-        loans: 1 + rng.below(2),
-        resp_buf: 1 + rng.below(3),
-        borrow: 1 + rng.below(2),
-        ovf_req: rng.chance(50),
-        ovf_resp: rng.chance(50),
-        resp_loans: 1 + rng.below(2),
+    let cycles = rng.chance(50);
+    let typed = rng.chance(if cycles { 80 } else { 40 });
+    let (req, resp, ty) = if typed {
+        let (a, rq) = typed_layout(rng);
+        let (b, rs) = typed_layout(rng);
+        (rq, rs, Some((a, b)))
+    } else {
+        (gen_layout(rng, "rq"), gen_layout(rng, "rs"), None)
+    };
+    if cycles {
+        // small limits: the pool of response channel ids of a client has
+        // max_servers * 2 * max_active_requests_per_client + max_loaned_requests = 5..6 entries
+        RrCfg {
+            local: rng.chance(50),
+            req,
+            resp,
+            active: 1,
+            loans: 1 + rng.below(2),
+            resp_buf: 2 + rng.below(3),
+            borrow: 1 + rng.below(3),
+            ovf_req: rng.chance(50),
+            ovf_resp: rng.chance(50),
+            resp_loans: 1 + rng.below(2),
+            typed: ty,
+            cycles,
+        }
+    } else {
+        RrCfg {
+            local: rng.chance(50),
+            req,
+            resp,
+            active: 1 + rng.below(2),
+            loans: 1 + rng.below(2),
+            resp_buf: 1 + rng.below(3),
+            borrow: 1 + rng.below(2),
+            ovf_req: rng.chance(50),
+            ovf_resp: rng.chance(50),
+            resp_loans: 1 + rng.below(2),
+            typed: ty,
+            cycles,
+        }
     }
 }
 
@@ -418,7 +715,93 @@ fn elems(l: &Layout, rng: &mut Rng) -> usize {
     }
 }
 
+fn elems_ok(l: &Layout, rng: &mut Rng) -> usize {
+    if l.dynamic {
+        1 + rng.below(l.slice_len)
+    } else {
+        1
+    }
+}
+
+fn teardown_tail(rng: &mut Rng, ops: &mut Vec<RrOp>) {
+    let mut tail = vec![RrOp::DropClient, RrOp::DropServer, RrOp::DropAllReqLoans, RrOp::DropAllPendings, RrOp::DropAllActive, RrOp::DropAllRespLoans, RrOp::ReleaseAllResponses];
+    for i in (1..tail.len()).rev() {
+        let j = rng.below(i + 1);
+        tail.swap(i, j);
+    }
+    for t in tail {
+        ops.push(t);
+        ops.push(RrOp::Counts);
+    }
+}
+
+/// request cycles: send a request, the server answers with 1..3 responses, the client receives
+/// 0..n of them and drops the pending response (responses stay queued), and so on for at least
+/// twice as many requests as the client has response channel ids
+fn gen_cycles(cfg: &RrCfg, rng: &mut Rng) -> Vec<RrOp> {
+    let pool = 2 * 2 * cfg.active + cfg.loans;
+    let ncycles = 2 * pool + 1 + rng.below(pool);
+    let mut ops = Vec::new();
+    for _ in 0..ncycles {
+        // request
+        if rng.chance(50) {
+            ops.push(RrOp::CSendCopy(elems_ok(&cfg.req, rng), rng.next() % 1000));
+        } else {
+            ops.push(RrOp::CLoan(elems_ok(&cfg.req, rng)));
+            ops.push(RrOp::CWrite(0, rng.next() % 1000));
+            ops.push(RrOp::CSend(0));
+        }
+        ops.push(RrOp::SRecv);
+        // responses
+        let nresp = 1 + rng.below(3);
+        for _ in 0..nresp {
+            if rng.chance(60) {
+                ops.push(RrOp::ASendCopy(0, elems_ok(&cfg.resp, rng), rng.next() % 1000));
+            } else {
+                ops.push(RrOp::ALoan(0, elems_ok(&cfg.resp, rng)));
+                ops.push(RrOp::AWrite(0, rng.next() % 1000));
+                ops.push(RrOp::ASend(0));
+            }
+        }
+        // the server keeps or drops the active request before the client looks
+        let drop_active_first = rng.chance(50);
+        if drop_active_first {
+            ops.push(RrOp::ADrop(0));
+        }
+        // the client receives 0..nresp+1 of them (one more = a receive on an empty queue)
+        let nrecv = rng.below(nresp + 2);
+        if rng.chance(30) {
+            ops.push(RrOp::PHas(0));
+        }
+        for _ in 0..nrecv {
+            ops.push(RrOp::PRecv(0));
+            if rng.chance(70) {
+                ops.push(RrOp::RRelease(0));
+            }
+        }
+        ops.push(RrOp::PDrop(0));
+        if !drop_active_first {
+            // a response sent after the pending response is gone
+            if rng.chance(30) {
+                ops.push(RrOp::ASendCopy(0, elems_ok(&cfg.resp, rng), rng.next() % 1000));
+            }
+            ops.push(RrOp::ADrop(0));
+        }
+        if rng.chance(20) {
+            ops.push(RrOp::ReleaseAllResponses);
+        }
+        if rng.chance(10) {
+            ops.push(RrOp::Counts);
+        }
+    }
+    teardown_tail(rng, &mut ops);
+    ops
+}
+
 pub fn gen_ops(cfg: &RrCfg, rng: &mut Rng, maxops: usize) -> Vec<RrOp> {
+    if cfg.cycles {
+        return gen_cycles(cfg, rng);
+    }
     let n = 8 + rng.below(maxops.max(9) - 8);
     let mut ops = Vec::new();
     for _ in 0..n {
@@ -476,23 +859,22 @@ pub fn gen_ops(cfg: &RrCfg, rng: &mut Rng, maxops: usize) -> Vec<RrOp> {
             ops.push(RrOp::ASend(rng.below(3)));
         }
     }
-    let mut tail = vec![RrOp::DropClient, RrOp::DropServer, RrOp::DropAllReqLoans, RrOp::DropAllPendings, RrOp::DropAllActive, RrOp::DropAllRespLoans, RrOp::ReleaseAllResponses];
-    for i in (1..tail.len()).rev() {
-        let j = rng.below(i + 1);
-        tail.swap(i, j);
-    }
-    for t in tail {
-        ops.push(t);
-        ops.push(RrOp::Counts);
-    }
+    teardown_tail(rng, &mut ops);
     ops
 }
 
-fn make(api_c: bool, cfg: &RrCfg, svc: &str, node: &str) -> Result<Box<dyn RrWorld>, String> {
-    if api_c {
-        cside::rr_world(cfg, svc, node)
-    } else {
-        rust_world(cfg, svc, node)
+#[derive(Clone, Copy, PartialEq, Eq)]
+pub enum Api {
+    Rust,
+    Typed,
+    C,
+}
+
+fn make(api: Api, cfg: &RrCfg, svc: &str, node: &str) -> Result<Box<dyn RrWorld>, String> {
+    match api {
+        Api::C => cside::rr_world(cfg, svc, node),
+        Api::Rust => rust_world(cfg, svc, node),
+        Api::Typed => typed_world(cfg, svc, node),
     }
 }
 
@@ -519,7 +901,7 @@ fn leftovers<S: Service>(svc: &str, nodes: &[&str]) -> (usize, String) {
     })
 }
 
-fn run_mode(mode: &str, a_c: bool, b_c: bool, cfg: &RrCfg, ops: &[RrOp], case: usize, nf: (bool, bool)) -> usize {
+fn run_mode(mode: &str, a_c: Api, b_c: Api, cfg: &RrCfg, ops: &[RrOp], case: usize, nf: (bool, bool)) -> usize {
     println!("M {}", mode);
     let svc = format!("c18r_{}_{}_{}", std::process::id(), case, mode);
     let node_a = format!("{}_a", svc);
@@ -767,7 +1149,7 @@ pub fn run_case(case: usize, rng: &mut Rng, maxops: usize) -> usize {
     let ops = gen_ops(&cfg, rng, maxops);
     let nf = (rng.chance(50), rng.chance(50));
     println!(
-        "C {} reqres local={} req={}/{}/{}/{} resp={}/{}/{}/{} active={} loans={} resp_buf={} borrow={} ovf={}/{} resp_loans={} nops={}",
+        "C {} reqres local={} req={}/{}/{}/{} resp={}/{}/{}/{} active={} loans={} resp_buf={} borrow={} ovf={}/{} resp_loans={} typed={} cycles={} nops={}",
         case,
         cfg.local,
         cfg.req.size,
@@ -785,12 +1167,19 @@ pub fn run_case(case: usize, rng: &mut Rng, maxops: usize) -> usize {
         cfg.ovf_req,
         cfg.ovf_resp,
         cfg.resp_loans,
+        cfg.typed.is_some(),
+        cfg.cycles,
         ops.len()
     );
     let mut n = 0;
-    n += run_mode("RR", false, false, &cfg, &ops, case, nf);
-    n += run_mode("CC", true, true, &cfg, &ops, case, nf);
-    n += run_mode("CR", true, false, &cfg, &ops, case, nf);
-    n += run_mode("RC", false, true, &cfg, &ops, case, nf);
+    n += run_mode("RR", Api::Rust, Api::Rust, &cfg, &ops, case, nf);
+    n += run_mode("CC", Api::C, Api::C, &cfg, &ops, case, nf);
+    n += run_mode("CR", Api::C, Api::Rust, &cfg, &ops, case, nf);
+    n += run_mode("RC", Api::Rust, Api::C, &cfg, &ops, case, nf);
+    if cfg.typed.is_some() {
+        n += run_mode("TT", Api::Typed, Api::Typed, &cfg, &ops, case, nf);
+        n += run_mode("CT", Api::C, Api::Typed, &cfg, &ops, case, nf);
+        n += run_mode("TC", Api::Typed, Api::C, &cfg, &ops, case, nf);
+    }
     n
 }
